@@ -323,6 +323,59 @@ func HarnessC16CallPath(L int) {
 	verifReach("linted")
 }
 
+// verifC16BrokenCallees: files of a local reusable workflow / a local action whose decoding
+// fails in go-yaml with a type error (the library reports those on several lines, one per error).
+var verifC16BrokenWorkflows = []string{
+	"on:\n  workflow_call:\n    inputs:\n      foo:\n        type: string\n        required: [a]\njobs:\n  j:\n    runs-on: ubuntu-latest\n    steps:\n      - run: echo\n",
+	"on:\n  workflow_call:\n    inputs:\n      foo:\n        type: string\n        required: [a]\n      bar:\n        type: string\n        required: {b: c}\njobs:\n  j:\n    runs-on: ubuntu-latest\n    steps:\n      - run: echo\n",
+	"on:\n  workflow_call:\n    secrets:\n      tok:\n        required: [a, b]\njobs:\n  j:\n    runs-on: ubuntu-latest\n    steps:\n      - run: echo\n",
+}
+var verifC16BrokenActions = []string{
+	"name: a\ndescription: d\ninputs:\n  foo:\n    required: [a]\nruns:\n  using: node20\n  main: index.js\n",
+	"name: [a]\ndescription: {b: c}\nruns:\n  using: node20\n  main: index.js\n",
+	"name: a\ndescription: d\nruns:\n  using: composite\n  steps: {a: b}\n",
+}
+
+// HarnessC16CalleeBroken: a workflow that calls a local reusable workflow (kind 0) or uses a
+// local action (kind 1) whose file go-yaml rejects with one or two type errors: the caller's
+// diagnostic quotes the library's error; it stays on one line.
+func HarnessC16CalleeBroken() {
+	kind := verifChoose("kind", 2)
+	which := verifChoose("which", 3)
+	var caller, calleePath, callee string
+	if kind == 0 {
+		caller = "on: push\njobs:\n  j:\n    uses: ./.github/workflows/callee.yml\n"
+		calleePath, callee = ".github/workflows/callee.yml", verifC16BrokenWorkflows[which]
+	} else {
+		caller = "on: push\njobs:\n  j:\n    runs-on: ubuntu-latest\n    steps:\n      - uses: ./act\n"
+		calleePath, callee = "act/action.yml", verifC16BrokenActions[which]
+	}
+	var errs []*Error
+	if verifIsNative() {
+		errs = verifC16NativeCalleeBroken(caller, calleePath, callee)
+	} else {
+		verifC10Files = map[string]string{"/r/.github/workflows/w.yml": caller, "/r/" + calleePath: callee}
+		verifC10Tree = map[string]int{"/r/act/index.js": 2}
+		verifC10Cfg = map[string]*Config{}
+		verifSetCwd("/r")
+		verifOverride("os.ReadFile", verifC10ReadFile)
+		verifOverride("os.Stat", verifC10StatTree)
+		verifOverride("findProject", verifC10FindProject)
+		verifOverride("findProjectRoot", verifC10FindProjectRoot)
+		verifOverride("loadRepoConfig", verifC10RepoConfig)
+		l := verifLinter("/r", "", "")
+		var err error
+		errs, err = l.LintFile("/r/.github/workflows/w.yml", nil)
+		verifCheck(err == nil, "lint-failed")
+	}
+	verifReach("linted")
+	verifCheckf(len(errs) >= 1, "broken-callee-not-reported", verifErrTextConc(errs))
+	for _, e := range errs {
+		verifReach("diagnostic")
+		verifCheckf(verifNot(verifMsgHasRawNewline(e.Message)), "raw-line-break-in-message", e.Message)
+	}
+}
+
 // HarnessC16Event: an event name of L arbitrary bytes under `on:` with a
 // filter below it (unknown events are echoed by several checks).
 func HarnessC16Event(L int) {
